@@ -24,6 +24,7 @@ import (
 	"github.com/zitadel/saml/pkg/provider/xml/saml"
 	"github.com/zitadel/saml/pkg/provider/xml/samlp"
 	"github.com/zitadel/saml/pkg/provider/xml/soap"
+	"github.com/zitadel/saml/pkg/provider/xml/xml_dsig"
 
 	"verif/harness/internal/coqgen"
 	"verif/harness/internal/idp"
@@ -206,6 +207,8 @@ func fill(v reflect.Value, depth int, gen func() string) {
 	}
 }
 
+func coqStr(s string) string { return `"` + strings.ReplaceAll(s, `"`, `""`) + `"%string` }
+
 // ---------- the run ----------
 
 type docCheck struct {
@@ -215,7 +218,7 @@ type docCheck struct {
 
 func Run(dir, tier string, seed int64) error {
 	run := coqgen.NewRun(dir, "C18", tier, seed)
-	run.Imports = "From Saml Require Import Base.Bytes Xml.Tree Corr.C18Corr."
+	run.Imports = "From Saml Require Import Base.Bytes Xml.Tree Xml.SchemaTypes Xml.Schema Corr.C18Corr."
 	run.CaseType = "c18case"
 	run.BadFn = "c18_bad"
 	run.PerShard = 40
@@ -487,6 +490,50 @@ func Run(dir, tier string, seed int64) error {
 				continue
 			}
 			checkDoc("marshal:"+t.name, doc, put, map[string]interface{}{"type": t.name, "round": round})
+		}
+	}
+
+	// ===== (2b) the struct-to-document mapping: values of the library's model types with random shape (nil pointers, empty
+	// slices and strings, zero numbers, runtime element names) and hostile data; the Coq side marshals the same value
+	// with the schema go2v generates from the struct tags and must produce the same bytes
+	sround := 12
+	if tier == "thorough" {
+		sround = 150
+	}
+	stypes := append([]mk{}, types...)
+	stypes = append(stypes, mk{"samlp.AttributeQuery", func() interface{} { return &samlp.AttributeQueryType{} }}, mk{"saml.NameID", func() interface{} { return &saml.NameIDType{} }},
+		mk{"md.IDPSSODescriptor", func() interface{} { return &md.IDPSSODescriptorType{} }}, mk{"xml_dsig.Signature", func() interface{} { return &xml_dsig.SignatureType{} }})
+	for _, t := range stypes {
+		for round := 0; round < sround; round++ {
+			v := t.new()
+			n := 0
+			fillShape(reflect.ValueOf(v).Elem(), 3+round%3, r, func() string {
+				n++
+				if round%2 == 0 {
+					return fmt.Sprintf("v%d", n)
+				}
+				return hostile[r.Intn(len(hostile))]
+			})
+			doc, err := samlxml.Marshal(v)
+			run.Res.Evaluations++
+			if err != nil {
+				run.Note("Marshal(%s): %v", t.name, err)
+				run.Count("struct-marshal-error")
+				continue
+			}
+			if len(doc) > 60000 {
+				run.Count("struct-too-large")
+				continue
+			}
+			g, gerr := gvalOf(reflect.ValueOf(v))
+			if gerr != nil {
+				run.Note("gvalOf(%s): %v", t.name, gerr)
+				continue
+			}
+			run.Count("struct=" + t.name)
+			run.Distinct(fmt.Sprintf("struct/%s/%d", t.name, len(doc)%17))
+			run.AddCase(id, fmt.Sprintf("KStruct %s %s %s %s", coqgen.Z(int64(id)), coqStr(typeKey(reflect.TypeOf(v))), g, coqgen.Bytes(string(doc))), map[string]interface{}{"type": t.name, "round": round, "document": string(doc)})
+			id++
 		}
 	}
 
